@@ -58,6 +58,9 @@ CLAIMED["C12"] = ("E-native", "Generated kernels (9 wrapper nestings x 8 built-i
 CLAIMED["C10"] = ("E-wide", "wide_integer over single-word and multi-limb storage (8/16/32/64-bit limbs, signed/unsigned, 65..2048 digits): operands are written into and results read from the limb array directly; + - * / % & | ^ unary -, ++/--, shifts by every class of count, "
                   "six comparisons, conversions to/from 32/64-bit integers and three floating types, decimal text and numeric_limits are logged and compared offline with python integers reduced to N-bit two's complement; ASan+UBSan watch uintwide_t.", "DESIGN.md §4 C10",
                   "sanitizer-instrumented execution with an offline big-integer checker over the recorded event log")
+CLAIMED["C15"] = ("E-parse", "Run-time parse<T> on generated tokens (all lengths, four bases, signs, separators, stride-boundary lengths) under ASan+UBSan with results read from storage and compared with python int(); literal operators _c/_wide/_cnl/_cnl2 and the "
+                  "constant-driven factories in generated translation units whose deduced type facts and values are printed at run time and judged offline; a well-formed literal that does not compile is recorded as an outcome from the compiler diagnostics.",
+                  "DESIGN.md §4 C15", "sanitizer-instrumented execution of generated programs + compiler constant-evaluator diagnostics, judged by an offline python checker")
 PLANNED = {}
 
 
